@@ -335,7 +335,8 @@ def case(ctx, rng, idx, state):
                 if not np.any(sel):
                     continue
                 sc = float(np.abs(ref[sel]).max())
-                ctx.close("get_data[ix,iy,iz]!=evaluate_k(point)", got[sel], ref[sel], rtol=1e-9, scale=sc,
+                # derivative quantities carry 1/gap^n rounding amplification: one more decade of head room
+                ctx.close("get_data[ix,iy,iz]!=evaluate_k(point)", got[sel], ref[sel], rtol=1e-9 if RANK[q] < 2 else 1e-8, scale=sc,
                           atol=1e-9 * a0 ** NATURAL[q], what=f"quantity {q}", witness=wit)
                 ctx.count("grid_points_vs_evaluate_k", int(sel.sum()))
                 ctx.count(f"quantity_rank{RANK[q]}")
